@@ -153,6 +153,7 @@ type ytask struct {
 	// order of returns is exact)
 	callStep, retStep int
 	waitsFor          *lockProbe // the mutex the task takes with its next statement (nil: none)
+	stalledUntil      time.Time  // ysched.drain: not resumed before this (virtual) instant
 }
 
 func beDist(id [32]byte, node enode.ID) *big.Int {
